@@ -5,7 +5,7 @@
 (*                                                                         *)
 (* A behaviour is  Build(base description, via) ; Render(data)+ .           *)
 (* Base descriptions are generated in families:                             *)
-(*   seg     paragraph  a{{xy}}b{{z}}c  cut into runs at every set of cut   *)
+(*   seg     paragraph  a{{xy}}<CJK>{{z}}c  cut into runs at every set of cut   *)
 (*           positions (MinCuts..MaxCuts cuts), run formatting per FmtModes, *)
 (*           placed in body / table cell / nested table cell / a non-loop   *)
 (*           row of a loop table / header / footer                          *)
@@ -36,7 +36,8 @@ Plain(cs) == P(<<R(cs, 0, "")>>, <<>>)
 Tb(rows, full) == [k |-> "tbl", full |-> full, rows |-> rows]
 Desc(body, hdr, ftr, sect, extra) == [body |-> body, hdr |-> hdr, ftr |-> ftr, sect |-> sect, extra |-> extra]
 
-T0 == <<"a","{","{","x","y","}","}","b","{","{","z","}","}","c">>
+\* "CJK" is a multi-byte character (byte offsets and character offsets differ after it)
+T0 == <<"a","{","{","x","y","}","}","CJK","{","{","z","}","}","c">>
 Nxy == <<"x","y">>
 Nz == <<"z">>
 AllPpr == <<"pStyle","numPr","pBdr","tabs","snapToGrid","spacing","ind","jc","keepNext","keepLines",
